@@ -124,6 +124,15 @@ def c10(ctx, H):
         if r['outcome'] == 'hang' or r['seconds'] > 1.5 or \
                 r['loop_exceptions']:
             ctx.violation(sig, f'{rp["site"]}: {r}', replay=rp)
+    elif rp['kind'] == 'sizes':
+        from harness.drivers import chan_raw
+        for case, bad in chan_raw.extreme_size_cases_one(
+                rp['quirk'], rp['window'], rp['pktsize']):
+            print(case, bad)
+            ctx.count(('replay', 'sizes'))
+            mine = [b for b in bad if 'C10' in b.split(' ')[0]]
+            if mine:
+                ctx.violation(sig, '; '.join(mine[:2]), replay=rp)
     elif rp['kind'] == 'msg':
         bad, closed = H.run_msg_case(rp['message'], H.FIELDS[rp['message']],
                                      rp['field'], rp['mutation'],
